@@ -598,7 +598,7 @@ func (m *machine) genHTLT(t *rapid.T) hOp {
 	op := hOp{Kind: "create", Transfer: true}
 	if len(m.order) == 0 || chance(t, "htlt/odd-denom", 2) {
 		op.Sender, op.To = 1, 0
-		op.Coins = []coinJ{{pick(t, "odd-denom", []string{"stake", "htltxrp"}), "5"}}
+		op.Coins = []coinJ{{pick(t, "odd-denom", []string{"stake", "htltxrp", "HTLTBNB", "Htltbtc"}), "5"}}
 		op.Secret = m.genSecret(t)
 		op.Timestamp = uint64(m.c.Time().Unix())
 		op.HashLock = m.genHashLock(t, op.Secret, op.Timestamp)
